@@ -269,6 +269,19 @@ func c09Discharge(c *Ctx, ff *FuncFacts, s PanicSite, via map[*ssa.Function][]st
 		return dischargeSlice(ff, x)
 	case *ssa.MakeSlice:
 		return dischargeMake(ff, x)
+	case *ssa.Call:
+		if s.Kind == "libpre" {
+			kt := ff.Term(x.Call.Args[0]).String()
+			for _, f := range ff.FactsAt(x.Block()) {
+				if f.IsCmp && f.Entails(CmpSpec{A: Matcher{"len(key)", func(t *Term) bool {
+					return t.Op == "call" && t.Sym == "builtin:len" && len(t.Args) == 1 && t.Args[0].String() == kt
+				}}, NoB: true, Rel: EQ, D: 32}) {
+					return Discharge{true, "dominating fact " + f.String(), ""}
+				}
+			}
+			return Discharge{false, "", "no dominating fact gives len(" + kt + ") == 32"}
+		}
+		return Discharge{false, "", s.Desc}
 	case *ssa.Convert:
 		return Discharge{false, "", s.Desc}
 	case *ssa.BinOp:
